@@ -33,6 +33,155 @@ def run(prog, rep, tier):
     r1 = rep.rule("R03.1", "panic-site freedom of wire-reachable decoder code (debug arithmetic)")
     fns = check_panic_freedom(prog, r1, roots(prog), "C03", scope_crates=("rustybgp_packet",), profile="debug")
     r1.floor("functions reachable from the wire entry points", len(fns), 120)
+    r2 = rep.rule("R03.2", "every loop in wire-reachable code makes progress")
+    check_loops(prog, r2, fns)
+    r3 = rep.rule("R03.3", "a returned frame was consumed from the stream buffer (at least a header)")
+    check_frames(prog, r3)
+    r4 = rep.rule("R03.4", "'need more bytes' is returned only under a buffer-length comparison")
+    check_need_more(prog, r4)
+    r5 = rep.rule("R03.5", "parser errors terminate the session with a NOTIFICATION")
+    check_error_mapping(prog, r5)
     if tier == "thorough":
         r1b = rep.rule("R03.1r", "panic-site freedom with release (wrapping) arithmetic")
         check_panic_freedom(prog, r1b, roots(prog), "C03", scope_crates=("rustybgp_packet",), profile="release")
+
+
+# ---------------------------------------------------------------------------------------------- R03.2 .. R03.5
+def _interp(prog, k, profile="debug"):
+    from ..absint import analyse
+    cache = getattr(prog, "_absint_cache", None)
+    if cache is None:
+        cache = prog._absint_cache = {}
+    it = cache.get((k, profile, "final"))
+    if it is None:
+        it = analyse(prog, k, profile)
+        cache[(k, profile, "final")] = it
+    return it
+
+
+def check_loops(prog, r, fns):
+    n = 0
+    for k in fns:
+        fv = view(prog, k)
+        ls = loops(fv)
+        if not ls:
+            continue
+        it = _interp(prog, k)
+        for head, body, backs in ls:
+            n += 1
+            where = "%s loop@%d" % (short(prog.name(k)), fv.line(head))
+            # iterator-driven loops (`for x in ..`): the header calls Iterator::next and exits on None
+            iter_driven = False
+            b, steps = head, 0
+            while steps < 6:
+                t = fv.blocks[b]["t"]
+                if t["t"] == "call" and any(nm.endswith("Iterator::next") for nm in callee_names(t)):
+                    ga = t["f"].get("ga", "")
+                    # iterators over finite collections / ranges; `repeat`, `cycle`, `from_fn` are not
+                    if not re.search(r"Repeat|Cycle|FromFn|Successors|RangeFrom", ga):
+                        iter_driven = True
+                    break
+                ss = [s for _, s in fv.succ[b] if s in body]
+                if len(fv.succ[b]) != 1 or not ss:
+                    break
+                b = ss[0]
+                steps += 1
+            if iter_driven:
+                r.ok(where + ": iterator-driven (terminates with the iterator)")
+                continue
+            prog_blocks = {p for p in it.progress if p in body}
+            stuck = [bk for bk in backs if bk in fv.reach(head, prog_blocks) and head not in prog_blocks]
+            # reach() includes paths head -> back edge source avoiding every progress block
+            if not stuck:
+                r.ok(where + ": every iteration consumes input / advances a cursor (%d progress site(s))" % len(prog_blocks))
+            else:
+                r.fail(prog.name(k), "loop-without-progress@" + _loop_tag(fv, head),
+                       "a path around this loop neither consumes input nor advances a cursor variable: hostile input can make it spin", fv.loc(head))
+    r.floor("loops in wire-reachable code", n, 25)
+
+
+def _loop_tag(fv, head):
+    t = fv.blocks[head]["t"]
+    sn = (t.get("sn") or "")[:40]
+    return re.sub(r"\s+", "", sn) or "head"
+
+
+def check_frames(prog, r):
+    for nm, hdr in ((r"rustybgp_packet::bgp::PeerCodec::try_parse", 19), (r"rustybgp_packet::<rpki::RtrCodec as tokio_util::codec::Decoder>::decode", 8)):
+        k = prog.one(nm)
+        fv = view(prog, k)
+        it = _interp(prog, k)
+        r.analysed(fv.name)
+        rend = Renderer(fv, depth=10)
+        somes = []
+        for bi, si, s in fv.defs().get(0, []):
+            if bi not in fv.live:
+                continue
+            e = rend.call_expr(s, 10, bi) if si == "t" else rend.rvalue(s["rv"], 10)
+            if e[0] == "agg" and e[2] == "Ok" and e[3] and e[3][0][0] == "agg" and e[3][0][2] == "Some":
+                somes.append(bi)
+        if not somes:
+            r.unanalysable("%s: no Ok(Some(_)) return found" % short(fv.name), fv.loc())
+            continue
+        for sb in somes:
+            cons = [b for b in it.consumed if fv.dominates(b, sb)]
+            if not cons:
+                r.fail(fv.name, "frame-not-consumed", "a message is returned without removing its bytes from the stream buffer: the same frame is decoded again forever", fv.loc(sb))
+                continue
+            lo = max(it.consumed[b] for b in cons)
+            if lo >= hdr:
+                r.ok("%s: Ok(Some) after consuming >= %s bytes" % (short(fv.name), lo))
+            else:
+                r.fail(fv.name, "frame-consumes-too-little",
+                       "a message is returned after consuming n >= %s bytes (header is %d): a length field below the header size yields messages without consuming input (endless loop)" % (lo, hdr), fv.loc(cons[0]))
+
+
+def check_need_more(prog, r):
+    for nm in (r"rustybgp_packet::bgp::PeerCodec::try_parse", r"rustybgp_packet::<rpki::RtrCodec as tokio_util::codec::Decoder>::decode"):
+        k = prog.one(nm)
+        fv = view(prog, k)
+        r.analysed(fv.name)
+        rend = Renderer(fv, depth=10)
+        n = 0
+        for bi, si, s in fv.defs().get(0, []):
+            if bi not in fv.live:
+                continue
+            e = rend.call_expr(s, 10, bi) if si == "t" else rend.rvalue(s["rv"], 10)
+            if not (e[0] == "agg" and e[2] == "Ok" and e[3] and e[3][0][0] == "agg" and e[3][0][2] == "None"):
+                continue
+            n += 1
+            gs = flat_guards(fv, bi)
+            len_cmp = any(g[0] == "bin" and g[1] in ("Lt", "Le", "Gt", "Ge") and ("len" in show(g, 200) or "buffer_len" in show(g, 200)) for g, l, h in gs)
+            on_err = any(g[0] == "discr" and "Err" in l for g, l, h in gs)
+            if len_cmp and not on_err:
+                r.ok("%s: Ok(None) under a buffer-length comparison" % short(fv.name))
+            else:
+                r.fail(fv.name, "need-more-not-length-justified",
+                       "Ok(None) ('need more bytes') is returned %s: a complete but unusable frame stalls the stream forever" % ("for every parse error" if on_err else "without a buffer-length test"), fv.loc(bi))
+        if n == 0:
+            r.unanalysable("%s: no Ok(None) return" % short(fv.name), fv.loc())
+
+
+def check_error_mapping(prog, r):
+    rs = prog.one(r"rustybgpd::event::PeerSession::run_select")
+    fv = view(prog, prog.body_key(rs))
+    r.analysed(prog.name(rs))
+    n = 0
+    for what, rx in (("try_parse", r"rustybgp_packet::bgp::PeerCodec::try_parse"), ("validate_message", r"rustybgp_packet::bgp::validate_message")):
+        calls = fv.calls(re.compile(rx))
+        if not calls:
+            r.unanalysable("run_select: no call of %s" % what, fv.loc())
+            continue
+        # blocks under the Err outcome of that call must build Step::Terminate with a notification
+        ok = False
+        for bi, si, s in fv.aggregates(re.compile(r"rustybgpd::event::Step"), "Terminate"):
+            gs = flat_guards(fv, bi)
+            if any(g[0] == "discr" and any(c.endswith(what) for c in expr_calls(g)) and l == {"Err"} for g, l, h in gs):
+                e = Renderer(fv, depth=6).operand(s["rv"]["fields"][1], 6)
+                if e[0] == "agg" and e[2] == "Some":
+                    ok = True
+        n += 1
+        if ok:
+            r.ok("run_select: Err from %s => Step::Terminate with a NOTIFICATION" % what)
+        else:
+            r.fail(prog.name(rs), "err-not-terminating:" + what, "an Err from %s does not terminate the session with a NOTIFICATION" % what, fv.loc(calls[0][0]))
